@@ -67,6 +67,9 @@ func (w *transferWorld) startAPIClients() []*apiClient {
 					n = 24
 				}
 				op := r.Intn(n)
+				if spec.Heavy && r.Chance(0.1) {
+					op = 21 // verify: its completion handler is the busiest meeting point of locks
+				}
 				if rc != nil {
 					switch op {
 					case 0:
